@@ -313,6 +313,11 @@ def run_c04(tier, seed, replay=None):
                     # flight, a monitoring query): no close is then the last one, nothing is checkpointed behind a commit,
                     # and what is acknowledged is durable only through what the COMMIT itself has synced
                     sym.append("hold")
+            if not via_http and hi % 3 == 2:
+                # another connection holds the write lock for longer than the busy timeout while one more upload arrives (a
+                # backup, a long transaction of another process): the upload waits; it is served once the lock is gone, or it
+                # is refused — no acknowledgement is recorded for it, so at every crash point it is wholly there or not at all
+                sym += ["lockfor 7000", "av 1 latest:1 b:4,4"]
             sym += [f"savestate {hd}/ids.txt", "end"]
             text = "\n".join(sym) + "\n"
             datadir = os.path.join(hd, "data")
